@@ -88,7 +88,7 @@ CLAIMS = {
         "masses MZ, MW, physical masses mA, mH+), MW/MZ reproduced from the SM input, calculate_Mhh returns (mh,mH) without tachyon flag and the heavy "
         "eigenvector is +-(cos alpha, sin alpha) under the eigen-solver's documented contract, the Goldstone reordering puts MZ/MW at index 0, the mixing-angle "
         "getters return the input sin/cos(beta-alpha) for EITHER eigenvector sign, and for all six Yukawa types the fermion mass matrices equal the SM ones "
-        "with no division by zero.  Two obligations failed on the pinned tree with replayed counterexamples (mixing angle, aligned zeta=cot beta) and were repaired by fix: commits.",
+        "with no division by zero.  Two obligations failed on the pinned tree with replayed counterexamples (mixing angle, aligned zeta=cot beta) and were repaired by fix: commits.  Lemmas re-registered: both THDM constructors hand the basis fields to the members of the same name (C09.constructor.*), and no function keeps state between constructions (static frame of C19), so the single-construction contracts hold for every construction in a process.",
    note=NOTE_COMMON + "A-LINALG (C12) is assumed for fs_diagonalize_hermitian and the SVD (singular values of a matrix with M^dagger M = diag(m^2) are |m|); "
         "cos(beta-alpha) >= 1e-6 is required for the mixing-angle clause (at cos(beta-alpha)=0 the sign of sin(beta-alpha) is a field redefinition); "
         "the gauge-basis round trip is functional determinism of the same mass-matrix code; IEEE rounding is not covered.",
@@ -97,7 +97,7 @@ CLAIMS = {
    text="Relational contracts on the real THDM Yukawa getters, for ALL parameter values: get_zeta_f equals Table 1 of arXiv:1607.06292; a type I/II/X/Y model and "
         "the aligned model with those zeta_f return identical zeta_f, rho_f and all twelve Yukawa matrices; the aligned model (zeta_f, Delta_f) and the general model "
         "with the encoding Pi_f return identical rho_f and Yukawa matrices; two models differing only in parameters documented as ignored return identical "
-        "getters and identical Gamma_f/Pi_f after init_yukawas; validate() only warns.  Every a_mu routine reads the Yukawa sector only through these getters.",
+        "getters and identical Gamma_f/Pi_f after init_yukawas; validate() only warns.  Every a_mu routine reads the Yukawa sector only through these getters.  CONSTRUCTORS: THDM(Gauge_basis|Mass_basis, SM, Config) copies yukawa_type, zeta_f, Delta_f from the field of the same name, stores the SM input and the configuration passed, and calls init_gauge_couplings() then set_basis(basis) with that basis.",
    note=NOTE_COMMON + "The chain from equal getters to equal a_mu is by functional determinism of the a_mu routines (they read the model only through getters: C19); "
         "running masses enter through get_mu/md/ml by contract (independent of the parametrisation).",
    technique="relational lemmas by symbolic execution of the extracted real getters + z3", design='5 C09'),
@@ -116,7 +116,7 @@ CLAIMS = {
         "domain -- each shift guard removes the pole it is meant for and no unguarded pole remains (with and, per function, without the assumption that two removable singularities do not "
         "coincide); helpers are called inside their preconditions (modular); the guard in amu2L_B_EWadd only moves the argument (the unguarded temporary is dead downstream); the quark Barr-Zee functions FCWu, FCWd, f_CSu, f_CSd, phi_over_y "
         "under their documented/physical preconditions (xu yd == xd yu; down-type quark lighter than half the W and H+- masses) and their call sites fuHp/fdHp; dxlog's series "
-        "has the Taylor coefficients of its definition.  Counterexamples are replayed on the real code along the property's one-parameter path with the property's own 1%-band criterion.",
+        "has the Taylor coefficients of its definition.  Counterexamples are replayed on the real code along the property's one-parameter path with the property's own 1%-band criterion.  MSSM: tan_alpha() returns the negative root of t x^2 + 2x - t = 0 (t = tan 2 alpha) on BOTH sides of M_A = M_Z for all tan(beta) != 1; at M_A == M_Z exactly -1 (BOUNDED: IEEE execution at 60 points).",
    note=NOTE_COMMON + "NOT decided: the 1% band itself (size of the cancellations between pole terms after a shift of 1e-8) and everything about rounding; the neutral fermionic two-loop, the one-loop THDM and "
         "the MSSM functions are covered for this property only through the loop-function contracts of C01/C02 (equal-argument branches).  T7/T8 (complex square roots) only through their call-site preconditions. "
         "Four fixed findings (Kaellen zeros, m_h = 2 m_W, guard onto the pole at m_h = m_Z, guard order in YF3).",
@@ -148,7 +148,7 @@ CLAIMS = {
  'C14': dict(
    text="The contract-decidable part of C14: every float->int conversion executed by the readers is defined (in range) for ALL doubles; option readers accept exactly their documented values; "
         "block readers never index a line beyond its fields and write matrices/vectors in bounds only; numeric token conversion throws only EReadError; no exception class raised inside "
-        "main()'s try block escapes its handlers; every failure exit emits a diagnostic.  The read_integer conversion obligation failed on the pinned tree (UBSan-confirmed) and was fixed.",
+        "main()'s try block escapes its handlers; every failure exit emits a diagnostic.  The read_integer conversion obligation failed on the pinned tree (UBSan-confirmed) and was fixed.  An exception that reaches the boundary of a noexcept function is the effect std::terminate, which no handler stops: main() must not reach one.",
    note=NOTE_COMMON + "NOT decided and not claimed: termination within bounded time, leaks, uninitialised memory, behaviour of the SLHAea tokenizer and iostreams on arbitrary bytes, signals -- "
         "they need execution, which is outside this technique family.",
    technique="side obligations of symbolic execution (conversion/index ranges) + exception-effect inference on main", design='5 C14'),
@@ -158,7 +158,7 @@ CLAIMS = {
         "AND the exception-retry path) the headline is a1L+a2L with the 2L uncertainty, every printed section sum equals the items printed above it, every percentage equals "
         "100 x its own component / the stated reference; minimal and SLHA writers print exactly calculate_amu / calculate_uncertainty into the documented block/entry per format; "
         "fill_block_entry changes exactly one entry of exactly the named block (frame over the whole SLHA view).  One obligation failed on the pinned tree (fermionic percentage) "
-        "with a replayed counterexample and was repaired by a fix: commit.",
+        "with a replayed counterexample and was repaired by a fix: commit.  Callee overloads that take further numeric arguments are functions of those arguments (they agree with the API functions only at the library's own a_mu values: C18).",
    note=NOTE_COMMON + "Model-taking callees are ghost values (pure functions of the const model: C19); iostream/boost::format text formatting to the printed precision and SLHAea "
         "containers are assumed (SLHAea::Coll by an ordered-list contract); echo of input blocks is SLHAea's write_to_stream (external, not claimed).",
    technique="output-effect traces by symbolic execution of the extracted writers + z3; ghost-valued callee contracts", design='5 C15'),
@@ -177,14 +177,14 @@ CLAIMS = {
         "each MSSM C setter followed by the matching getter returns the value set and changes no other entry (through the real C++ accessors, all index combinations); the five "
         "error-code wrappers map exception classes to codes one-to-one; the THDM struct conversions copy every C field to the C++ field of the same name; the string getters "
         "write only inside [msg, msg+len) for every len including 0 (CBMC, bit-precise unsigned arithmetic).  13 obligations failed on the pinned tree (12 leaking forwarders, "
-        "len==0 wrap-around), every one replayed on the real code, and were repaired by three fix: commits.",
+        "len==0 wrap-around), every one replayed on the real code, and were repaired by three fix: commits.  THDM handles: for every previous value of the caller's handle variable a failing constructor leaves *model == 0 and returns the code of the exception class; success stores the new object; a null out-parameter is rejected without a write.",
    note=NOTE_COMMON + "Library calls without a body in the extracted sources are assumed not to throw and allocation failure is ignored (listed in the evidence); 'bit-for-bit' beyond the wrapper body "
         "is the identity of the callee symbol; call-sequence state (histories) enters through symbolic model objects, not through explored sequences; std::string::copy by its documented contract.",
    technique="exception-effect inference + symbolic execution of extracted wrappers; CBMC code contracts for the buffer bound", design='5 C17'),
  'C18': dict(
    text="All clauses of C18 are postconditions of the ten real uncertainty functions: floors (2.3e-10 / 2e-12), non-negativity, finiteness, "
         "1L = |a2L| + delta2L, 0L = documented sum are proved in IEEE-754 arithmetic by CBMC code contracts for all doubles satisfying the stated "
-        "preconditions; the 2L formulas and the agreement of computing/given overloads are proved by WP + z3 (reals).",
+        "preconditions; the 2L formulas and the agreement of computing/given overloads are proved by WP + z3 (reals).  Lemma: no function keeps state between calls (static/thread_local frame of C19), so the relations hold for every call history.",
    note=NOTE_COMMON + "Model getters and a_mu callees are ghost constants (value of a pure callee on the unchanged const model); finiteness of the a_mu inputs is a precondition.",
    technique="CBMC code contracts (IEEE) + WP/SMT lemmas", design='5 C18'),
  'C19': dict(
@@ -192,7 +192,7 @@ CLAIMS = {
         "arguments, with function-local statics hoisted to file scope by the extractor so that a memo or cache is a frame violation; every a_mu, contribution and uncertainty function "
         "taking a model (32 MSSM, 7x3 THDM, plus the THDM mass and mixing-angle getters) leaves every data member of the model (nested objects included) unchanged on every path, writes no "
         "file-scope variable and executes no static declaration (symbolic execution with before/after comparison of the whole object).  Determinism and history independence follow "
-        "from the empty frames; thread-safety is argued from them (no shared writable state) -- no schedule is explored.",
+        "from the empty frames; thread-safety is argued from them (no shared writable state) -- no schedule is explored.  Local variables with static OR thread storage duration must be const and initialised from compile-time constants only (data members, this and calls of non-library functions count as run-time data); no function touches ambient thread/process state (floating-point environment and its sticky flags, errno, clocks, random generators, environment, locale, thread ids).",
    note=NOTE_COMMON + "Loop functions, decomposition routines and THDM kernels enter the model-level frames by their own frame contracts; supporting syntactic scan for mutable/const_cast/thread_local and "
         "non-const namespace-scope variables; data races inside Eigen/libstdc++ and the ThreadSanitizer-style exploration named in the quantifier are outside contract-based verification.",
    technique="frame conditions: CBMC DFCC assigns-clause enforcement + symbolic execution frame comparison", design='5 C19'),
